@@ -34,6 +34,25 @@ fn values(thorough: bool) -> Vec<(String, Vec<u8>)> {
     if thorough {
         v.push(("64 KiB zeros".into(), vec![0u8; 65536]));
         v.push(("zstd magic only".into(), vec![0x28, 0xB5, 0x2F, 0xFD]));
+        // every single byte and every 2-byte string over a framing-sensitive alphabet
+        for b in 0..=255u8 {
+            v.push((format!("byte 0x{:02x}", b), vec![b]));
+        }
+        let alpha: [u8; 8] = [0x00, b'\r', b'\n', b'$', b'*', 0x28, 0xB5, 0xFF];
+        for a in alpha {
+            for b in alpha {
+                v.push((format!("bytes 0x{:02x}{:02x}", a, b), vec![a, b]));
+            }
+        }
+        // lengths around powers of two, compressible and not
+        for n in [2usize, 3, 7, 8, 9, 15, 16, 17, 31, 32, 33, 63, 64, 65, 127, 128, 129, 255, 256, 257, 1023, 1025, 4095, 4097] {
+            v.push((format!("{} x 'a'", n), vec![b'a'; n]));
+            let mut x: u64 = 0x9e37_79b9_7f4a_7c15 ^ n as u64;
+            v.push((format!("{} pseudo-random bytes", n), (0..n).map(|_| { x ^= x << 13; x ^= x >> 7; x ^= x << 17; (x & 0xff) as u8 }).collect()));
+        }
+        v.push(("1 MiB of text".into(), b"undermoon ".iter().cloned().cycle().take(1 << 20).collect()));
+        v.push(("a zstd frame of a zstd frame".into(), zstd::encode_all(&zstd::encode_all(&b"inner"[..], 1).unwrap()[..], 1).unwrap()));
+        v.push(("truncated zstd frame".into(), { let mut f = zstd::encode_all(&b"inner value inner value"[..], 1).unwrap(); f.truncate(f.len() - 3); f }));
     } else {
         v.push(("8 KiB zeros".into(), vec![0u8; 8192]));
     }
